@@ -691,6 +691,26 @@ func (s *sim) gossipSlot(slot uint64, blk *blockRec, parent *blockRec, hb *state
 				res, p = run(signed)
 				s.judge(g, "aggregate_and_proof", what+" delivered twice", expTiming, res, p)
 			}
+			// the identical aggregate wrapped by ANOTHER selected aggregator of the committee: the
+			// aggregate (by its hash-tree-root) has been seen, whoever relays it
+			if !s.stop && exp == expAccept {
+				for _, vi2 := range comm {
+					ki2 := w.keyOf(hb.st, vi2)
+					if vi2 == vi || ki2 < 0 || g.seen[fmt.Sprintf("aggr/%d/%d", epoch, vi2)] {
+						continue
+					}
+					sel2 := w.keys.sign(ki2, signingRoot(common.Slot(slot).HashTreeRoot(tree.GetHashFn()), selDom))
+					if !hashMod(sel2, modulo) {
+						continue
+					}
+					msg2 := phase0.AggregateAndProof{AggregatorIndex: vi2, Aggregate: agg, SelectionProof: sel2}
+					signed2 := &phase0.SignedAggregateAndProof{Message: msg2, Signature: w.keys.sign(ki2, signingRoot(msg2.HashTreeRoot(spec, tree.GetHashFn()), aapDom))}
+					res, p = run(signed2)
+					s.res.Stat("fault_dup_aggregate_other_aggregator", 1)
+					s.judge(g, "aggregate_and_proof", fmt.Sprintf("the aggregate just accepted, relayed again by aggregator %d (slot %d committee %d)", vi2, slot, ci), expTiming, res, p)
+					break
+				}
+			}
 			break
 		}
 	}
